@@ -3,14 +3,16 @@
    (and what is derived from them: repeat, iterate, accumulate, reduce, map, contramap ...): applying the
    returned backward request to the new trace with the original arguments returns EXACTLY the original trace
    (choices, score, return value, stored arguments) with the negated weight (C06_update_roundtrip).
-   PARTIAL elsewhere: Regenerate is proved at distribution sites; through mask and switch the implementation does
-   not restore (known findings K25, K19) and a Regenerate on a scan cannot be undone (K24); those requests are
+   Proved in full for Regenerate on every program built from distributions, the static language and dimap
+   (C06_regenerate_roundtrip; Vmap rejects Regenerate, and a Regenerate on a scan cannot be undone: K24).
+   PARTIAL elsewhere: through mask and switch the implementation does not restore (known findings K25, K19);
+   IndexRequest / StaticRequest given by the caller and the requests through mask and switch are
    decided on each run by the correspondence (the model's backward request is compared with the implementation's
    and applied) and by the direct oracle (apply the implementation's backward request, compare with the original). *)
 From Coq Require Import List ZArith.
 Import ListNotations.
 From Model Require Import Key Sel GFI GFIEdit.
-From Proofs Require Import GFIBase GFIWf GFIEditProofs GFIRoundtrip GFIRoundtripAll.
+From Proofs Require Import GFIBase GFIWf GFIEditProofs GFIRoundtrip GFIRoundtripAll GFIRoundtripRegen.
 Open Scope Z_scope.
 
 Theorem C06_update_roundtrip : forall g k t c a tg t' w b,
@@ -31,3 +33,20 @@ Theorem C06_backward_weight_negates_partial : forall g k k' t r r' a tg tg' t' w
   t_score t'' = t_score t -> w' = - w.
 Proof. exact backward_weight_negates. Qed.
 Print Assumptions C06_backward_weight_negates_partial.
+
+Theorem C06_regenerate_roundtrip : forall g k t s a tg t' w b,
+  wfg g -> rsimple g -> wft g t -> edit g k t (RRegen s) a tg = Ok (t', w, b) ->
+  forall k' tg', exists b', edit g k' t' b (t_args t) tg' = Ok (t, - w, b').
+Proof. exact regenerate_roundtrip. Qed.
+Print Assumptions C06_regenerate_roundtrip.
+
+(* ---- non-vacuity: concrete non-trivial programs and traces meeting the hypotheses above (proofs/GFIWitness.v) ---- *)
+From Proofs Require Import GFIWitness.
+Example C06_update_hypotheses_met : wfg ex_g /\ simple ex_g /\ wft ex_g ex_t /\
+  exists t' w b, edit ex_g ex_k2 ex_t (RUpdate ex_c) ex_a' ex_tg = Ok (t', w, b) /\ t' <> ex_t /\ w <> 0.
+Proof. exact (conj ex_wfg (conj ex_simple (conj ex_wft ex_update_succeeds))). Qed.
+Print Assumptions C06_update_hypotheses_met.
+Example C06_regenerate_hypotheses_met : wfg ex_r /\ rsimple ex_r /\ wft ex_r ex_rt /\
+  exists t' w b, edit ex_r ex_k2 ex_rt (RRegen ex_s) [VZ 5] [tg_unknown] = Ok (t', w, b) /\ t' <> ex_rt /\ w <> 0.
+Proof. exact (conj ex_r_wfg (conj ex_r_rsimple (conj ex_r_wft ex_regenerate_succeeds))). Qed.
+Print Assumptions C06_regenerate_hypotheses_met.
